@@ -73,7 +73,10 @@ fn props(id: usize) -> WriterProperties {
         2 => b.set_max_row_group_row_count(Some(3)).set_bloom_filter_enabled(true),
         3 => b.set_statistics_enabled(EnabledStatistics::Page).set_data_page_row_count_limit(2).set_write_batch_size(2),
         // bloom filters right after each row group (the default position), several row groups
-        4 => b.set_bloom_filter_enabled(true).set_bloom_filter_position(BloomFilterPosition::AfterRowGroup).set_max_row_group_row_count(Some(700)),
+        4 => b
+            .set_bloom_filter_enabled(true)
+            .set_bloom_filter_position(BloomFilterPosition::AfterRowGroup)
+            .set_max_row_group_row_count(Some(700)),
         // bloom filters at the end of the file
         5 => b.set_bloom_filter_enabled(true).set_bloom_filter_position(BloomFilterPosition::End).set_max_row_group_row_count(Some(700)),
         // bloom + page index + no dictionary
@@ -284,7 +287,7 @@ fn run_wfault(t: &[&str], fails: &mut Fails) -> String {
     let mut out = Outcome::default();
     let res = drive_writer(writer, &inp, spec, sink.clone(), &mut out);
     let data = sink.data();
-    let accepted = out.accepted_at_error.unwrap_or(data.len());
+    let accepted = sink.accepted(out.accepted_at_error);
     if !is_prefix(&data[..accepted.min(data.len())], &good) {
         fails.push(("not-a-prefix".into(), format!("sink holds {accepted} bytes that are not a prefix of the fault-free output")));
     }
@@ -592,9 +595,13 @@ fn gen_wfault(sink: &mut Sink, rng: &mut Rng, i: usize) {
     // (the writer's internal buffer) with bloom filters in both positions; one file > 64 KiB
     let bloomy = [4usize, 5, 6, 7, 2];
     let (spec, large) = match (i / 3) % 6 {
-        0 | 1 => (format!("{}:{}", gen_spec(rng, &[0, 1, 2, 3, 4, 5, 6]), rng.usize(N_PROPS)), false),
-        2 | 3 => (format!("{}:{}", gen_spec(rng, &[0, 1, 2, 3, 4, 5, 6]), bloomy[rng.usize(5)]), false),
-        4 => (format!("1:{}:{}:{}:{}", 1 + rng.usize(2), 1100 + rng.usize(900), rng.usize(100000), bloomy[rng.usize(4)]), true),
+        0 => (format!("{}:{}", gen_spec(rng, &[0, 1, 2, 3, 4, 5, 6]), rng.usize(N_PROPS)), false),
+        1 => (format!("{}:{}", gen_spec(rng, &[0, 1, 2, 3, 4, 5, 6]), bloomy[rng.usize(5)]), false),
+        // row groups > 8 KiB with bloom filters: 1..3 row groups, both positions, dictionary on/off
+        2 => (format!("1:{}:{}:{}:{}", 1 + rng.usize(2), 1100 + rng.usize(900), rng.usize(100000), [7usize, 6, 4][i % 3]), true),
+        3 => (format!("1:3:{}:{}:{}", 1100 + rng.usize(500), rng.usize(100000), [4usize, 7, 6][i % 3]), true),
+        4 => (format!("1:2:{}:{}:{}", 1400 + rng.usize(800), rng.usize(100000), [5usize, 4, 7][i % 3]), true),
+        // > 64 KiB
         _ => (format!("1:2:{}:{}:{}", 4200 + rng.usize(600), rng.usize(100000), [4usize, 5, 8, 0][(i / 18 + i) % 4]), true),
     };
     let (_, trace) = fault_free(writer, &spec);
